@@ -22,7 +22,8 @@
    returns T" is repaired in /repo: create_unknown_raises has no guard for it.
    Strings that are not spellings ("T..x", "T.") are outside the quantifier;
    the model shows they are still accepted (malformed_path_accepted). *)
-From SV Require Import Lib.Base Fam.Schema C03.Model C03.Spec C03.BuildProofs C03.SplitProofs C03.PathProofs.
+From SV Require C01.Marshal.
+From SV Require Import Lib.Base Fam.Schema C03.Model C03.Spec C03.BuildProofs C03.SplitProofs C03.PathProofs C03.Link.
 
 (* 1. the whole of create(): name parsing, look-up, path walk, construction *)
 Theorem create_meets_spec : forall W sp,
@@ -62,6 +63,13 @@ Theorem split_wellformed : forall sp,
   split (render sp) = render_root (sp_root sp) :: map render_member (sp_members sp).
 Proof. exact split_wellformed_l. Qed.
 Print Assumptions split_wellformed.
+
+(* the fuel of the regex model is never the reason for a result *)
+Theorem split_fuel_sufficient : forall s extra,
+  split_loop (Datatypes.S (length s) + extra) s = split s /\
+  m_rest (Datatypes.S (length s) + extra) s = splitp_match s.
+Proof. intros s extra. split; [apply split_fuel_sufficient_l|apply m_rest_fuel_ge]. Qed.
+Print Assumptions split_fuel_sufficient.
 
 Theorem qualify_spellings : forall W r,
   root_ok r = true ->
@@ -111,6 +119,16 @@ Theorem content_model_flattening_agrees : forall W t,
   exp_attrs W t = flat_map attr_of_item (all_items W t).
 Proof. intros W t. split; [apply exp_members_items|apply exp_attrs_items]. Qed.
 Print Assumptions content_model_flattening_agrees.
+
+(* 6. "filling such an object and passing it yields the same request as passing
+   the equivalent dict": in the marshaller model of C01 (coq/C01/Marshal.v), a
+   value whose type marks are the declared types - what the factory builds -
+   and the same value without marks give the same request, at any depth *)
+Theorem object_vs_dict_request : forall S xstq v d anc,
+  exactly_typed S d v = true ->
+  C01.Marshal.marshal_elem S xstq d anc (untype v) = C01.Marshal.marshal_elem S xstq d anc v.
+Proof. exact object_vs_dict_request_l. Qed.
+Print Assumptions object_vs_dict_request.
 
 (* ------------------------------------------------------------------ *)
 (* witnesses                                                           *)
@@ -209,6 +227,17 @@ Proof.
   rewrite <- H1 in Hr. vm_compute in Hr. discriminate.
 Qed.
 Print Assumptions malformed_path_accepted.
+
+(* a typed object nested in a typed object, against the nested dicts *)
+Example object_vs_dict_nonvacuous :
+  let S := w_types W_ex in
+  let d := mkE 11 1 true (TNamed 1 10) false false false None in
+  let v := VObj (Some (1, 10)) [((15, false), VText 7);
+                                ((11, false), VObj (Some (1, 10)) [((15, false), VText 8)]);
+                                ((18, true), VText 9)] in
+  exactly_typed S d v = true /\ untype v <> v /\
+  exists n, C01.Marshal.marshal_elem S true d false v = MOk [n].
+Proof. vm_compute. repeat split; try discriminate. eexists. reflexivity. Qed.
 
 (* a path through a type whose wildcard precedes the named member is captured
    by the wildcard (such schemas violate Unique Particle Attribution): the
